@@ -32,7 +32,7 @@ UNIVERSES_QUICK = [
                                    "of <= 3 distinct literals up to renaming of the variables; 2 vars: all sets of <= 6 clauses of <= 2 literals (1 486)"),
 ]
 UNIVERSES_THOROUGH = [
-    ("seq2x", "C15_Sat_seq2x.cfg", "2 vars, literal sequences of length <= 2, <= 4 clauses (204 205 CNFs)"),
+    ("seq2x", "C15_Sat_seq2x.cfg", "2 vars, literal sequences of length <= 2, <= 4 clauses, one representative per renaming of the variables (of 204 205 CNFs)"),
     ("set3x", "C15_Sat_set3x.cfg", "3 vars, all sets of <= 4 clauses of <= 3 distinct literals, one representative per renaming of the variables"),
     ("seq3", "C15_Sat_seq3.cfg", "3 vars, literal sequences of length <= 2, <= 3 clauses (81 400 CNFs) + 2 vars, all sets of <= 6 clauses (1 486)"),
 ]
@@ -216,7 +216,7 @@ def run(rep, tier):
 
     def random_events():
         ev = wd / "ev_rand.ndjson"
-        run_driver("c15", ["random", 2000 if quick else 30000, ev, seed()], env=env, timeout=5000)
+        run_driver("c15", ["random", 2000 if quick else 20000, ev, seed()], env=env, timeout=5000)
         return ev
 
     def shuffled_events(name, k):
@@ -246,8 +246,8 @@ def run(rep, tier):
                     ("c15", ["rformulas", 30, rev, rsev, seed(), "prove"], env),
                     ("c15", ["repeats", vec, pev, psev, 1], env)]
         else:
-            jobs = [("c15", ["tseitin", vec, ev, sev, seed(), 2, 1800, "prove"], env),
-                    ("c15", ["rformulas", 1000, rev, rsev, seed(), "prove"], env),
+            jobs = [("c15", ["tseitin", vec, ev, sev, seed(), 2, 1200, "prove"], env),
+                    ("c15", ["rformulas", 600, rev, rsev, seed(), "prove"], env),
                     ("c15", ["repeats", vec, pev, psev, 0], env)]
         run_drivers_parallel(jobs, timeout=6000, max_workers=3)
         evs = _merge([ev, rev, pev], wd / "all_tseitin.ndjson")
@@ -279,7 +279,7 @@ def run(rep, tier):
         f_sat = []
         for i, (n, c, t) in enumerate(universes):
             extra = [random_events] if i == 0 else []
-            if not quick and n in ("set3x", "seq3"):
+            if not quick:
                 extra.append(shuffled_events(n, 0))
             f_sat.append(ex.submit(sat_pipeline, rep, n, c, t, wd, env, dedup, quick, extra))
         f_mut = ex.submit(mutants)
